@@ -19,6 +19,15 @@ def tagged_newtype_programs(ctx):
         XE = {"kind": "enum", "name": f"X{i}XE", "attrs": {}, "generics": [],
               "variants": [{"name": "A", "shape": "named", "fields": [{"name": "a", "ty": P("bool"), "attrs": {}}], "attrs": {}},
                            {"name": "B", "shape": "named", "fields": [{"name": "b", "ty": N(L["name"]), "attrs": {}}], "attrs": {}}]}
+        # parentheses inside string literals and doc comments (they do not count when a single flattened field's parentheses are stripped)
+        if i % 3 == 0:
+            XE["variants"][0]["attrs"]["rename"] = "a("          # an opening parenthesis in the FIRST operand of `(..) & (..)`
+            IE["variants"][2]["attrs"]["rename"] = "dot)"
+        elif i % 3 == 1:
+            XE["variants"][0]["fields"][0]["attrs"]["docs"] = [" open ( in a doc comment"]
+            IE["variants"][0]["fields"][0]["attrs"]["docs"] = [" radius :) in mm"]
+        else:
+            XE["variants"][1]["fields"][0]["attrs"]["rename"] = "b\"("
         items = [L, IE, XE]
         outs = []
         for repr_, attrs in (("int", {"tag": "type"}), ("adj", {"tag": "t", "content": "c"})):
